@@ -58,6 +58,9 @@ type Client struct {
 	// engine for an arbitrary fault: rejected, or applied-but-answer-lost.
 	InjectFaults     bool
 	InjectReadFaults bool
+	// InjectConflicts: a rejected status write is, arbitrarily, a plain error or an optimistic-locking
+	// Conflict (somebody else modified the object since it was read).
+	InjectConflicts bool
 	// FaultOnly, when set, restricts InjectFaults to the writes it accepts (verb, kind, name);
 	// every other write succeeds.  Used to afford large batches: one symbolic failing position.
 	FaultOnly func(verb, kind, name, node string) bool
@@ -567,6 +570,9 @@ func (s *statusWriter) Update(ctx context.Context, obj client.Object, opts ...cl
 	f := s.c.fault()
 	if f == 1 {
 		e.Failed = true
+		if s.c.InjectConflicts && nondet.Bool("api.conflict") {
+			return apierrors.NewConflict(schema.GroupResource{Resource: e.Kind}, obj.GetName(), errors.New("the object has been modified"))
+		}
 		return ErrInjected
 	}
 	if err := s.c.replace(obj, true); err != nil {
